@@ -1,4 +1,5 @@
 import flowpaths.utils.solverwrapper as sw
+import flowpaths.utils as utils
 import time
 
 class MinSetCover():
@@ -129,14 +130,14 @@ class MinSetCover():
         Returns `True` if the model was solved, `False` otherwise.
         """
         if self._is_solved is None:
-            self.solver.logger.error(f"{__name__}: Model not yet solved. If you want to solve it, call the `solve` method first.")
+            utils.logger.error(f"{__name__}: Model not yet solved. If you want to solve it, call the `solve` method first.")
             raise Exception("Model not yet solved. If you want to solve it, call the `solve` method first.")
         
         return self._is_solved
     
     def check_is_solved(self):
         if not self.is_solved():
-            self.solver.logger.error(f"{__name__}: Model not solved. If you want to solve it, call the `solve` method first.")
+            utils.logger.error(f"{__name__}: Model not solved. If you want to solve it, call the `solve` method first.")
             raise Exception(
                 "Model not solved. If you want to solve it, call the solve method first. \
                   If you already ran the solve method, then the model is infeasible, or you need to increase parameter time_limit."
